@@ -140,6 +140,7 @@ static bool build_state(C& c, const Abs& t, int64_t last_now)
 struct Call { unsigned long long op, k, v, al, pk; long long ttl, now; };
 static Call g_extra[4];
 static int  g_nextra;
+static int  nc_full;
 static int  g_explore; // depth of the continuation search after the listed calls (0: off)
 static unsigned long long g_draws[16];
 static size_t             g_next_draw;
@@ -302,7 +303,7 @@ static int run_state_mode(FILE* f)
         for (size_t p = 0; p < t.n && p < AMAX; ++p) if (t.d[p] >= last) { times[nt++] = t.d[p]; }
         times[nt++] = last + (t.tick > 0 ? t.tick : t.ttl) + 1;
         const int ops[8] = {OP_INSERT, OP_ERASE, OP_FIND, OP_CLEAN, OP_AGE, OP_CLEAR, OP_UPDTTL, OP_FIND_PLAIN};
-        long budget = 200000; // concrete runs
+        long budget = 400000; // concrete runs
         struct Cand { Call c; };
         static Cand cands[600]; int nc = 0;
         for (int oi = 0; oi < 8; ++oi)
@@ -318,19 +319,56 @@ static int run_state_mode(FILE* f)
                             cands[nc++].c = c;
                         }
         }
+        // depths 3 and 4 use a reduced candidate set (insert_or_update only, no peeks, the instant of the last call and one
+        // instant past every deadline / the aging tick): enough for the slot-reuse chains that turn a broken free-list
+        // into a wrong result or into undefined behaviour
+        static Cand cands3[120]; int nc3 = 0;
+        for (int i = 0; i < nc && nc3 < 120; ++i)
+        {
+            const Call& c = cands[i].c;
+            if ((c.op == OP_INSERT && c.al != 3) || c.pk != 0) continue;
+            if (c.now != times[0] && c.now != times[nt - 1]) continue;
+            if (c.now == times[nt - 1] && !(T_TTL || T_HAS_AGE)) continue;
+            cands3[nc3++] = cands[i];
+        }
+        if (g_explore > 4) g_explore = 4;
+        nc_full = nc;
+        // The exploration is a search on the real build: whatever it reproduces is a genuine public-API history, whichever
+        // start it used.  Large use counts (the solver picks arbitrary ones) would cost that many lookups per rebuild, so
+        // the counts are dense-ranked (order and ties preserved) for the search.
+        Abs tx = t;
+        {
+            uint64_t mx = 0;
+            for (size_t p = 0; p < t.n && p < AMAX; ++p) if (t.cnt[p] > mx) mx = t.cnt[p];
+            if (mx > 4)
+                for (size_t p = 0; p < t.n && p < AMAX; ++p)
+                {
+                    uint64_t r = 0;
+                    for (size_t q = 0; q < t.n && q < AMAX; ++q)
+                    {
+                        bool first = true;
+                        for (size_t q2 = 0; q2 < q; ++q2) if (t.cnt[q2] == t.cnt[q]) first = false;
+                        if (first && t.cnt[q] != 0 && t.cnt[q] < t.cnt[p]) ++r;
+                    }
+                    tx.cnt[p] = t.cnt[p] == 0 ? 0 : r + 1;
+                }
+        }
         for (int depth = 1; depth <= g_explore && worst == 0; ++depth)
         {
-            long idx[3] = {0, 0, 0};
+            long idx[4] = {0, 0, 0, 0};
+            const Cand* cs = depth >= 3 ? cands3 : cands;
+            const int   nc = depth >= 3 ? nc3 : ::nc_full;
             long total = 1; for (int d = 0; d < depth; ++d) total *= nc;
+            if (depth == 4 && total > budget) break;
             for (long it = 0; it < total && worst == 0 && budget > 0; ++it, --budget)
             {
                 long x = it; bool mono = true; long long prevt = last;
-                for (int d = 0; d < depth; ++d) { idx[d] = x % nc; x /= nc; g_extra[d] = cands[idx[d]].c; if (g_extra[d].now < prevt) mono = false; prevt = g_extra[d].now; }
+                for (int d = 0; d < depth; ++d) { idx[d] = x % nc; x /= nc; g_extra[d] = cs[idx[d]].c; if (g_extra[d].now < prevt) mono = false; prevt = g_extra[d].now; }
                 if (!mono) continue;
                 g_nextra = depth;
                 for (g_variant = 0; g_variant <= 2 && worst == 0; ++g_variant)
                 {
-                    int r = state_attempt(t, last_now_, ttl_, tick_, calls, ncalls, 0, 0, 0);
+                    int r = state_attempt(tx, last_now_, ttl_, tick_, calls, ncalls, 0, 0, 0);
                     if (r > 0) { worst = r; printf("EXPLORE-REPRODUCED depth=%d variant=%d\n", depth, g_variant); }
                 }
             }
